@@ -340,9 +340,11 @@ func (q *Queue) run(highestKey uint64) {
 				stats.Add(fifoSize, -int64(len(keysToDelete)))
 				return nil
 			})
-			// Ensure cursor moves past deleted range
+			// Ensure cursor moves past deleted range. Nothing above highestKey has
+			// ever been stored, so never move the cursor beyond it: an item enqueued
+			// later with an index at or below req.idx must still be emitted.
 			if err == nil && nextFrom != 0 && nextFrom <= req.idx {
-				nextFrom = req.idx + 1
+				nextFrom = min(req.idx, highestKey) + 1
 			}
 			req.respChan <- err
 
